@@ -97,8 +97,8 @@ class C04(Prop):
 
     def plan(self, tier):
         if tier == "quick":
-            return {"units": 8000, "budget_s": 75, "block": 100}
-        return {"units": 300000, "budget_s": 1500, "block": 200}
+            return {"units": 30000, "budget_s": 90, "block": 200}
+        return {"units": 900000, "budget_s": 1500, "block": 400}
 
     def gen(self, rng, idx, tier):
         stack = rng.choice(["client"] * 6 + ["pooled", "hash"])
